@@ -31,6 +31,9 @@ type Case struct {
 	Mut    string
 	MutPos int
 	Second []Tok `json:",omitempty"`
+	// PadKB > 0: a comment block of that many KiB stands before the second token (texts longer than the usual
+	// buffer sizes); only the last few cuts are tried then
+	PadKB int `json:",omitempty"`
 }
 
 type eg struct {
@@ -131,6 +134,9 @@ func genExpr(t *rapid.T, label string) []Tok {
 func genCase(t *rapid.T) Case {
 	c := Case{Toks: genExpr(t, "e")}
 	c.Trailer = rapid.SampledFrom(gen.Trailers).Draw(t, "trailer")
+	if gen.Chance(t, "padded", 700) {
+		c.PadKB = []int{5, 65, 1025}[gen.Uniform(t, "padkb", 3)]
+	}
 	switch rapid.IntRange(0, 8).Draw(t, "mut") {
 	case 0, 1, 2:
 		c.Mut = ""
@@ -288,8 +294,27 @@ func errText(err error) string {
 
 func check(c Case) pbt.Verdict {
 	box.Silence()
+	firstCut := 1
+	if c.PadKB > 0 && len(c.Toks) > 0 {
+		toks := append([]Tok{}, c.Toks...)
+		k := 0
+		if len(toks) > 1 {
+			k = 1
+		}
+		line := "; " + strings.Repeat("padding ( [ { ", 73) + "\n"
+		toks[k].Sep += "\n" + strings.Repeat(line, c.PadKB) + " "
+		c.Toks = toks
+		if len(toks) > 7 {
+			firstCut = len(toks) - 6
+		}
+	}
 	full := text(c.Toks)
-	v := pbt.Verdict{Key: full + "\x00" + c.Mut + fmt.Sprint(c.MutPos) + text(c.Second)}
+	v := pbt.Verdict{Key: text(c.Toks[:min(len(c.Toks), 1)]) + fmt.Sprint(c.PadKB, len(full)) + "\x00" + c.Mut + fmt.Sprint(c.MutPos) + text(c.Second)}
+	if c.PadKB == 0 {
+		v.Key = full + "\x00" + c.Mut + fmt.Sprint(c.MutPos) + text(c.Second)
+	} else {
+		v.Labels = append(v.Labels, fmt.Sprintf("padded:%dKiB", c.PadKB))
+	}
 	// the full text is one well-formed expression
 	if _, err, p := readErr(full + c.Trailer); err != nil || p {
 		return pbt.Failf("complete-expression-rejected", "well-formed text %q rejected: %v (panic=%v)", full+c.Trailer, err, p)
@@ -297,7 +322,7 @@ func check(c Case) pbt.Verdict {
 	evals := 1
 	maxDepth, strBr := 0, false
 	// (i) every prefix cut after a token
-	for n := 1; n < len(c.Toks); n++ {
+	for n := firstCut; n < len(c.Toks); n++ {
 		cut := text(c.Toks[:n])
 		st, completable := classify(c.Toks[:n])
 		if len(st) == 0 {
